@@ -219,3 +219,16 @@ func (c06) Run(c *wk.Case) {
 func canonDescribe(v value.Value) string { return bridge.Describe(v) }
 
 var _ = sort.Strings
+
+func pipePanic() funcGen.Function[value.Value] {
+	return funcGen.Function[value.Value]{Func: func(st funcGen.Stack[value.Value], cs []value.Value) (value.Value, error) {
+		if x, ok := st.Get(0).(value.Int); ok {
+			if k, ok := st.Get(1).(value.Int); ok && x == k {
+				panic("host function panics")
+			}
+		}
+		return st.Get(0), nil
+	}, Args: 2, IsPure: false}.SetDescription("x", "k", "panics for x=k")
+}
+
+func stackOf() funcGen.Stack[value.Value] { return funcGen.NewEmptyStack[value.Value]() }
